@@ -2,7 +2,7 @@ import ZChain.Drv.Util
 import ZChain.Model.NodePools
 /-! Line driver for the replicator model (C42).
 `new <numReplicators>` | `add <id: 64 lowercase hex> <pk>` (fresh object into pool 0) | `obj <o> <id> <pk>` (a node object) |
-`padd <pool> <o>` (AddNode of that object; pool 0 = the magic block's sharders) | `pos` | `ppos <pool>` | `scores <hash>` | `isbs <hash> <id>` |
+`padd <pool> <o>` (AddNode of that object; pool 0 = the magic block's sharders) | `pos` | `ppos <pool>` | `mb <pool> <startingRound>` (a further magic block whose sharders are that pool) | `round <r>` (block round of the following chain-level questions) | `scores <hash>` | `isbs <hash> <id>` |
 `repl <hash> <id>` | `intop <hash> <id> <n>` | `intopn <hash> <id> <n>`
 A `<hash>` that is not hex stands for a block hash that does not decode. -/
 namespace ZChain.Drv.C42
@@ -38,6 +38,13 @@ structure St where
   nrepl : Int
   w     : World
   next  : Nat          -- object ids of the nodes made by `add`
+  mbs   : ZChain.MagicBlocks.Store   -- starting round ↦ sharder pool of that magic block (pool 0 starts at round 0)
+  round : Int          -- the block round the chain-level questions are asked for
+
+def mbs0 : ZChain.MagicBlocks.Store := ZChain.MagicBlocks.put ZChain.MagicBlocks.new 0 0
+
+/-- the pool the chain-level answers talk about (for printing `SetIndex`es). -/
+def poolInForce (s : St) : Nat := (mbOf s.mbs s.round).getD 0
 
 def showBool : Option Bool → String
   | none => "panic"
@@ -48,14 +55,15 @@ def showBool : Option Bool → String
 def id32 (key : Nat) : Nat := key / 2 ^ 224
 
 /-- `<id32>:<SetIndex>` of the pool-0 node object with this key (the `SetIndex` is the object's current one). -/
-def idxOfKey (w : World) (key : Nat) : String :=
-  match (poolNodes w 0).find? (fun o => (nodeOf w o).key = key) with
+def idxOfKey (w : World) (key : Nat) (p : Nat := 0) : String :=
+  match (poolNodes w p).find? (fun o => (nodeOf w o).key = key) with
   | some o => s!"{id32 key}:{(getObj w o).setIndex}"
   | none => s!"{id32 key}:?"
 
-def showNodes (w : World) : Option (Bool × List Node) → String
+def showNodes (w : World) (r : Option (Bool × List Node)) (p : Nat := 0) : String :=
+  match r with
   | none => "panic"
-  | some (b, ns) => " ".intercalate ((if b then "true" else "false") :: ns.map (fun n => idxOfKey w n.key))
+  | some (b, ns) => " ".intercalate ((if b then "true" else "false") :: ns.map (fun n => idxOfKey w n.key p))
 
 def showPos (w : World) (p : Nat) : String :=
   " ".intercalate ("pos" :: (poolNodes w p).map (fun o => s!"{(nodeOf w o).key}:{(getObj w o).setIndex}"))
@@ -65,7 +73,7 @@ def known (w : World) (o : Nat) : Bool := (objGet w.objs o).isSome
 def step (s : St) (ws : List String) : St × String :=
   match ws with
   | ["new", n] => match n.toInt? with
-    | some n => ({ nrepl := n, w := emptyWorld, next := 1000000 }, "ok")
+    | some n => ({ nrepl := n, w := emptyWorld, next := 1000000, mbs := mbs0, round := 1 }, "ok")
     | none => (s, "bad-op")
   | ["add", id, _pk] => match parseId id with
     | some nd => ({ s with w := addNodeW (newObj s.w s.next nd) 0 s.next, next := s.next + 1 }, "ok")
@@ -76,6 +84,13 @@ def step (s : St) (ws : List String) : St × String :=
   | ["padd", p, o] => match p.toNat?, o.toNat? with
     | some p, some o => if p < 8 ∧ known s.w o then ({ s with w := addNodeW s.w p o }, "ok") else (s, "bad-op")
     | _, _ => (s, "bad-op")
+  | ["mb", p, st] => match p.toNat?, st.toInt? with
+    | some p, some st => if p < 8 ∧ 0 ≤ st ∧ st ≤ 9223372036854775807 then
+        ({ s with mbs := ZChain.MagicBlocks.put s.mbs p st }, "ok") else (s, "bad-op")
+    | _, _ => (s, "bad-op")
+  | ["round", r] => match r.toInt? with
+    | some r => if -9223372036854775808 ≤ r ∧ r ≤ 9223372036854775807 then ({ s with round := r }, "ok") else (s, "bad-op")
+    | none => (s, "bad-op")
   | ["pos"] => (s, showPos s.w 0)
   | ["ppos", p] => match p.toNat? with
     | some p => if p < 8 then (s, showPos s.w p) else (s, "bad-op")
@@ -84,10 +99,13 @@ def step (s : St) (ws : List String) : St × String :=
       | none => "panic"
       | some sc => " ".intercalate ("scores" :: sc.map (fun x => s!"{id32 x.node.key}:{x.setIndex}:{x.score}")))
   | ["isbs", h, id] => match parseId id with
-    | some nd => (s, showBool (isBlockSharderW s.nrepl s.w 0 (parseHash h) nd.key))
+    | some nd =>
+      -- the harness asks IsBlockSharderFromHash, IsBlockSharder and CanShardBlockWithReplicators and answers with the
+      -- common verdict (`entry-points-disagree …` otherwise): the model has ONE lookup for the three
+      (s, showBool (chainIsBlockSharder s.nrepl s.w s.mbs s.round (parseHash h) nd.key))
     | none => (s, "bad-op")
   | ["repl", h, id] => match parseId id with
-    | some nd => (s, showNodes s.w (canShardW s.nrepl s.w 0 (parseHash h) nd.key))
+    | some nd => (s, showNodes s.w (chainCanShard s.nrepl s.w s.mbs s.round (parseHash h) nd.key) (poolInForce s))
     | none => (s, "bad-op")
   | ["intop", h, id, n] => match parseId id, n.toInt? with
     | some nd, some n => (s, match scoreHashStringW s.w 0 (parseHash h) with
@@ -101,7 +119,7 @@ def step (s : St) (ws : List String) : St × String :=
     | _, _ => (s, "bad-op")
   | _ => (s, "bad-op")
 
-def run : IO Unit := ZChain.Drv.runLoop step { nrepl := 0, w := emptyWorld, next := 1000000 }
+def run : IO Unit := ZChain.Drv.runLoop step { nrepl := 0, w := emptyWorld, next := 1000000, mbs := mbs0, round := 1 }
 
 end ZChain.Drv.C42
 
